@@ -151,6 +151,7 @@ func checkC16(c *Ctx) {
 	checkTagPartsVerbatim(c, "C16.R4.json-tags", pk)
 	checkModelsRescanned(c, "C16.R7.models-rescanned", pk)
 	checkRetypeClearsRef(c, "C16.R4.retype-clears-ref", pk)
+	checkCommentsRaw(c, "C16.R8.comments-raw", pk)
 }
 
 func checkCompositeKinds(c *Ctx, pk *packages.Package) {
@@ -597,6 +598,7 @@ func checkJSONTags(c *Ctx, rule string, pk *packages.Package) {
 			return true
 		})
 		okOwn := false
+		var ownPos token.Pos
 		if nameObj != nil {
 			ast.Inspect(fd.Body, func(n ast.Node) bool {
 				as, ok := n.(*ast.AssignStmt)
@@ -609,11 +611,44 @@ func checkJSONTags(c *Ctx, rule string, pk *packages.Package) {
 				}
 				if call, ok := ast.Unparen(as.Rhs[0]).(*ast.CallExpr); ok && len(call.Args) == 0 {
 					if se, ok := call.Fun.(*ast.SelectorExpr); ok && se.Sel.Name == "Name" && goan.NamedPath(info.TypeOf(se.X)) == "go/types.Var" {
-						okOwn = true
+						okOwn, ownPos = true, as.Pos()
 					}
 				}
 				return true
 			})
+		}
+		// … whenever the tag gave no name of its own: what tells is the name parseJSONTag returned (still
+		// the first identifier), not the presence of a tag — `X, Y float64 `+"`"+`validate:"x"`+"`"+` has a tag and no json name
+		if okOwn {
+			byName, byTag := false, false
+			ast.Inspect(fd.Body, func(n ast.Node) bool {
+				ifs, ok := n.(*ast.IfStmt)
+				if !ok || !(ifs.Body.Pos() <= ownPos && ownPos <= ifs.Body.End()) {
+					return true
+				}
+				ast.Inspect(ifs.Cond, func(m ast.Node) bool {
+					switch x := m.(type) {
+					case *ast.BinaryExpr:
+						if x.Op == token.EQL {
+							for _, pr := range [][2]ast.Expr{{x.X, x.Y}, {x.Y, x.X}} {
+								if id, ok := ast.Unparen(pr[0]).(*ast.Ident); ok && info.ObjectOf(id) == nameObj {
+									if se, ok := ast.Unparen(pr[1]).(*ast.SelectorExpr); ok && se.Sel.Name == "Name" && goan.NamedPath(info.TypeOf(se.X)) == "go/ast.Ident" {
+										byName = true
+									}
+								}
+							}
+						}
+					case *ast.SelectorExpr:
+						if x.Sel.Name == "Tag" && goan.NamedPath(info.TypeOf(x.X)) == "go/ast.Field" {
+							byTag = true
+						}
+					}
+					return true
+				})
+				return true
+			})
+			c.Check(byName && !byTag, rule, "codescan.schemaBuilder.buildFromStruct › a multi-name declaration without json name gives each field its own name", c.posOf(pk, ownPos), "decided by comparing the parsed name with the first identifier, not by the presence of a tag",
+				"the own name of a field of `X, Y T` is taken under a condition that reads the presence of the struct tag (or does not compare the parsed name with the declaration's first identifier): with a tag that carries no json name (`validate:\"…\"`, `json:\",omitempty\"`) both fields are published as X and Y is missing although encoding/json writes it")
 		}
 		c.Check(nameObj != nil && okOwn, rule, "codescan.schemaBuilder.buildFromStruct › each field of a multi-name declaration keeps its own name", c.posOf(pk, fd.Pos()), "the default property name is taken from the types.Var being described",
 			"the property name comes only from parseJSONTag (first identifier of the declaration): for `X, Y float64` both fields are published as X and Y is missing although encoding/json writes it")
